@@ -321,3 +321,124 @@ pub fn cmp_table(out: &mut dyn Write) -> usize {
     }
     id
 }
+
+fn key_alphabet() -> Vec<Value> {
+    let s = |x: &str| Value::String(Arc::new(x.to_string()));
+    vec![Value::Int(1), Value::UInt(1), Value::UInt(2), Value::Int(-1), Value::UInt(0), Value::Int(0), Value::Bool(true), s("a"), s("b"), s("k1")]
+}
+
+fn to_key(v: &Value) -> Key {
+    match v {
+        Value::Int(i) => Key::Int(*i),
+        Value::UInt(u) => Key::Uint(*u),
+        Value::Bool(b) => Key::Bool(*b),
+        Value::String(s) => Key::String(s.clone()),
+        _ => unreachable!(),
+    }
+}
+
+/// C14: every map with <= 4 distinct keys of the alphabet, queried by every key of the alphabet and
+/// by the int/uint twin of every numeric key, through all query forms; every list of length <= 5
+/// with every index in -2..len+1 and the i64 extremes.
+pub fn drive_c14(seed: u64, thorough: bool, out: &mut dyn Write) -> usize {
+    let mut e = Emit { out, id: 0 };
+    let alpha = key_alphabet();
+    let mut queries = alpha.clone();
+    queries.extend_from_slice(&[Value::Int(2), Value::UInt(u64::MAX), Value::Int(0), Value::UInt(0), Value::Int(i64::MIN), Value::UInt(1u64 << 63), Value::Bool(false), Value::String(Arc::new("zz".into()))]);
+    let n = alpha.len();
+    let mut rng = Rng::new(seed);
+    for mask in 0u32..(1 << n) {
+        if mask.count_ones() > 4 {
+            continue;
+        }
+        let keys: Vec<&Value> = (0..n).filter(|i| mask & (1 << i) != 0).map(|i| &alpha[i]).collect();
+        // quick tier: all maps with <= 2 keys, a seeded half of the larger ones
+        if !thorough && keys.len() > 2 && !rng.chance(1, 2) {
+            continue;
+        }
+        let mut hm = HashMap::new();
+        let mut lit_entries = vec![];
+        for (i, k) in keys.iter().enumerate() {
+            hm.insert(to_key(k), Value::Int(10 + i as i64));
+            lit_entries.push(format!("{}: {}", lit_of(k).unwrap(), 10 + i));
+        }
+        let m = Value::Map(Map { map: Arc::new(hm) });
+        let mlit = format!("{{{}}}", lit_entries.join(", "));
+        let has_twins = (keys.iter().any(|k| matches!(k, Value::Int(1))) && keys.iter().any(|k| matches!(k, Value::UInt(1)))) || (keys.iter().any(|k| matches!(k, Value::Int(0))) && keys.iter().any(|k| matches!(k, Value::UInt(0))));
+        for q in &queries {
+            let vars = vec![("m".to_string(), m.clone()), ("k".to_string(), q.clone())];
+            let ql = lit_of(q).unwrap();
+            let forms: Vec<(&str, String, &Value, &Value)> = vec![
+                ("in", "k in m".to_string(), q, &m),
+                ("contains", "m.contains(k)".to_string(), &m, q),
+                ("idx", "m[k]".to_string(), &m, q),
+                ("in", format!("{} in m", ql), q, &m),
+                ("idx", format!("m[{}]", ql), &m, q),
+            ];
+            for (op, src, a, b) in forms {
+                let o = prog_apply(&src, &vars);
+                e.rec(op, "var", a, b, &src, o);
+            }
+            if !has_twins {
+                // literal maps: the written entries, queried the same ways (a literal holding both 1 and 1u is not pinned)
+                for (op, src, a, b) in [("in", format!("{} in {}", ql, mlit), q, &m), ("idx", format!("{}[{}]", mlit, ql), &m, q),
+                                        ("contains", format!("{}.contains({})", mlit, ql), &m, q)] {
+                    let o = prog_apply(&src, &[]);
+                    e.rec(op, "lit", a, b, &src, o);
+                }
+            }
+            if let Value::String(s) = q {
+                if s.chars().all(|c| c.is_ascii_alphanumeric()) {
+                    let src = format!("m.{}", s);
+                    let o = prog_apply(&src, &vars);
+                    e.rec("sel", "var", &m, q, &src, o);
+                    let src = format!("has(m.{})", s);
+                    let o = prog_apply(&src, &vars);
+                    e.rec("has", "var", &m, q, &src, o);
+                }
+            }
+        }
+        let o = prog_apply("size(m)", &[("m".to_string(), m.clone())]);
+        e.rec("size", "var", &m, &Value::Null, "size(m)", o);
+    }
+    // lists
+    for len in 0..=5usize {
+        let l: Vec<Value> = (0..len).map(|i| Value::Int(10 + i as i64)).collect();
+        let lv = Value::List(Arc::new(l));
+        let llit = lit_of(&lv).unwrap();
+        let mut idxs: Vec<i64> = (-2..=(len as i64 + 1)).collect();
+        idxs.extend_from_slice(&[i64::MIN, i64::MAX, 4294967296, -4294967296]);
+        for i in idxs {
+            let iv = Value::Int(i);
+            let vars = vec![("l".to_string(), lv.clone()), ("i".to_string(), iv.clone())];
+            let o = prog_apply("l[i]", &vars);
+            e.rec("idx", "var", &lv, &iv, "l[i]", o);
+            let src = format!("{}[{}]", llit, i);
+            let o = prog_apply(&src, &[]);
+            e.rec("idx", "lit", &lv, &iv, &src, o);
+        }
+        for x in [Value::Int(10), Value::UInt(10), Value::Float(11.0), Value::Int(99), Value::String(Arc::new("a".into())), Value::Null] {
+            let vars = vec![("l".to_string(), lv.clone()), ("x".to_string(), x.clone())];
+            let o = prog_apply("x in l", &vars);
+            e.rec("in", "var", &x, &lv, "x in l", o);
+            let o = prog_apply("l.contains(x)", &vars);
+            e.rec("contains", "var", &lv, &x, "l.contains(x)", o);
+        }
+    }
+    // additive laws on random strings and lists: a + b, size(a + b) against the parts
+    let m = if thorough { 5000 } else { 600 };
+    for k in 0..m {
+        let (a, b) = if k % 2 == 0 {
+            (gen::gen_value(&mut rng, &gen::T::Str, 4), gen::gen_value(&mut rng, &gen::T::Str, 4))
+        } else {
+            let t = gen::T::List(Box::new(if k % 4 == 1 { gen::T::Int } else { gen::T::Str }));
+            (gen::gen_value(&mut rng, &t, 5), gen::gen_value(&mut rng, &t, 5))
+        };
+        e.binary("add", &a, &b, true, true);
+        let vars = vec![("a".to_string(), a.clone()), ("b".to_string(), b.clone())];
+        let o = prog_apply("size(a + b) == size(a) + size(b)", &vars);
+        // recorded as an equality whose expected value is `true` whenever the sizes are pinned (ASCII)
+        e.rec("sizeadd", "var", &a, &b, "size(a + b) == size(a) + size(b)", o);
+    }
+    e.id
+}
